@@ -17,7 +17,7 @@ Qed.
 
 (* scalars are sent as the text of their value: (None, str(x).encode(), "text/plain") *)
 Theorem mp_scalar_text : forall T f k req v p,
-  match k with KAny | KNone | KBool | KInt | KFloat | KStr => True | _ => False end ->
+  match k with KAny | KNone | KBool | KInt | KFloat | KStr | KConst _ => True | _ => False end ->
   mp_value T f k req v = Some p -> exists s, str_of v = Some s /\ p = MText s.
 Proof.
   intros T f k req v p Hk H. destruct k; try contradiction; cbn in H;
